@@ -76,7 +76,7 @@ def shard(tier, seed, shard, nshards):
     n = N[tier] // nshards
     for i in range(n):
         rnd = random.Random("%s-%d-%d-%d" % (ID, seed, shard, i))
-        spec = G.gen_reread(rnd) if i % 6 == 5 else None
+        spec = G.gen_reread(rnd) if i % 6 == 5 else (G.gen_rewrite(rnd) if i % 12 == 4 else None)
         if spec is None:
             spec = G.gen_cascade(rnd)
         run_one(st, spec, rnd)
